@@ -69,11 +69,11 @@ BigChecks(run) ==
                            /\ Cardinality(InitB(G)) + SumOver(vn, [v \in vn |-> Len(SelectSeq(SuccList(G, v), LAMBDA t : t # 0 /\ InB(G, t)))]) >= cfg.target_states],
     \* C05: when one worker stops because model code panicked, the others stop too: each of them evaluates at most the
     \* rest of its current block (1500 states) once the market is closed.  The model counts the evaluations begun after
-    \* the panicking evaluation (and slows them down to 200us each); the slack covers the unwinding of the panicking
+    \* the panicking evaluation (and slows them down to 500us each); the slack covers the unwinding of the panicking
     \* worker up to the closing of the market.
     stop_after_panic |-> [a |-> G.poison # 0 /\ "evals_after_poison" \in DOMAIN d /\ d.joined,
                           c |-> (G.poison # 0 /\ "evals_after_poison" \in DOMAIN d /\ d.joined) =>
-                                   d.evals_after_poison <= cfg.threads * 1500 + 8000],
+                                   d.evals_after_poison <= cfg.threads * 1500 + 3000],
     \* C13 on big graphs: reported always/sometimes witnesses of 1-thread BFS are shortest
     shortest |-> [a |-> cfg.strategy = "bfs" /\ cfg.threads = 1 /\ Len(d.discoveries) > 0,
                   c |-> (cfg.strategy = "bfs" /\ cfg.threads = 1) =>
